@@ -111,6 +111,8 @@ type Scenario struct {
 	// Role: "" a client connection; "server" the connection a tcp / dtls server creates for an accepted
 	// peer (the observer may be a server application)
 	Role string `json:"role,omitempty"`
+	// TokFam: the family the tokens of the registrations come from (see tokenOf)
+	TokFam int `json:"tokFam,omitempty"`
 }
 
 type cbRec struct {
@@ -129,7 +131,17 @@ type injected struct {
 	ev     int // event index, -1 for the registration response
 }
 
-func tokenOf(i int) []byte { return []byte{0x0B, byte(i + 1)} }
+// tokenOf is the token of registration i. Family 0: two bytes that differ in the second; family 1: the
+// same byte followed by i zero bytes (01, 0100, 010000); family 2: i zero bytes in front of it.
+func tokenOf(fam, i int) []byte {
+	switch fam {
+	case 1:
+		return append([]byte{0x01}, make([]byte, i)...)
+	case 2:
+		return append(make([]byte, i), 0x01)
+	}
+	return []byte{0x0B, byte(i + 1)}
+}
 
 func Exec(t *testing.T, sc Scenario, r *evid.Run) *evid.Failure {
 	var cbs []cbRec
@@ -153,7 +165,7 @@ func Exec(t *testing.T, sc Scenario, r *evid.Run) *evid.Failure {
 		getToken := func() (message.Token, error) {
 			tokMu.Lock()
 			defer tokMu.Unlock()
-			tok := tokenOf(tokCounter)
+			tok := tokenOf(sc.TokFam, tokCounter)
 			tokCounter++
 			return tok, nil
 		}
@@ -235,7 +247,7 @@ func Exec(t *testing.T, sc Scenario, r *evid.Run) *evid.Failure {
 			bubble.Wait()
 			var req *refcodec.Msg
 			for _, m := range w.FromLib() {
-				if m.Code == 1 && string(m.Token) == string(tokenOf(i)) {
+				if m.Code == 1 && string(m.Token) == string(tokenOf(sc.TokFam, i)) {
 					mm := m
 					req = &mm
 				}
@@ -281,7 +293,7 @@ func Exec(t *testing.T, sc Scenario, r *evid.Run) *evid.Failure {
 			case "notify":
 				tok := []byte{0x7f, 0x7f, 0x7f}
 				if e.Obs >= 0 && e.Obs < n {
-					tok = tokenOf(e.Obs)
+					tok = tokenOf(sc.TokFam, e.Obs)
 				}
 				m := refcodec.Msg{Code: 69, Token: tok, Payload: []byte(fmt.Sprintf("N%d.%d", e.Obs, k))}
 				if !e.NoObserve {
@@ -325,7 +337,7 @@ func Exec(t *testing.T, sc Scenario, r *evid.Run) *evid.Failure {
 				}()
 				bubble.Wait()
 				for _, m := range w.FromLib() {
-					if m.Code == 1 && string(m.Token) == string(tokenOf(i)) && e.CancelAns != "silence" {
+					if m.Code == 1 && string(m.Token) == string(tokenOf(sc.TokFam, i)) && e.CancelAns != "silence" {
 						code := 69
 						if e.CancelAns == "404" {
 							code = 132
@@ -455,6 +467,7 @@ func gen(t *rapid.T) Scenario {
 	if rapid.IntRange(0, 2).Draw(t, "role") == 0 {
 		sc.Role = "server"
 	}
+	sc.TokFam = rapid.SampledFrom([]int{0, 0, 1, 2}).Draw(t, "tokfam")
 	n := rapid.IntRange(1, 3).Draw(t, "nobs")
 	for i := 0; i < n; i++ {
 		sc.Obs = append(sc.Obs, Obs{
